@@ -1715,6 +1715,16 @@ func (x *Unit) resolveTypeAny(s string) types.Type {
 // arbitrary again. Sound for safety, frame and panic edges under partial correctness; it says nothing about what the recursion computes.
 func (x *Unit) recursiveLit(st *State, pc *preparedCall) []Term {
 	fl := pc.lit
+	note := x.FU.Name + ": function literal calling itself through the variable it is bound to: checked under the frame contract of its syntactic write set by induction on the recursion depth (safety, frames, type invariants); what the recursion computes is NOT decided, its termination is not claimed"
+	have := false
+	for _, a := range x.assumedAt {
+		if a == note {
+			have = true
+		}
+	}
+	if !have {
+		x.assumedAt = append(x.assumedAt, note)
+	}
 	ms := x.modsOf(fl.Body)
 	ms.comps["alloc"] = true
 	havoc := func() {
